@@ -1,4 +1,4 @@
-// Reproduction of finding D13 (property C15) against the real crate, public API only.
+// Reproduction of finding D14 (property C15) against the real crate, public API only.
 // MountFds::get (src/passthrough/mount_fd.rs) opens the mount point with libc::open(.., O_PATH) into a raw c_int that is never
 // closed (neither on success nor on the error returns that follow): every time the MountFd of a mount id is (re)created
 // one descriptor is lost.  With inode_file_handles the MountFd lives exactly as long as some inode of that mount is referenced;
@@ -17,7 +17,7 @@ fn open_fds() -> usize {
 }
 
 #[test]
-fn d13_mount_fd_leaks_o_path_descriptor() {
+fn d14_mount_fd_leaks_o_path_descriptor() {
     let dir = TempDir::new().unwrap();
     std::fs::write(dir.as_path().join("f"), b"x").unwrap();
     let cfg = Config {
